@@ -260,6 +260,10 @@ def finish(prop, tier, seed, merged, meta, t0, replay_mode=False):
         os.makedirs(os.path.join(VERIF, 'evidence'), exist_ok=True)
         with open(os.path.join(VERIF, 'evidence', '%s.json' % prop), 'w') as f:
             json.dump(ev, f, indent=1, sort_keys=True)
+        # a copy per tier, so that a later quick run does not erase what the last thorough run covered
+        os.makedirs(os.path.join(VERIF, 'evidence', tier), exist_ok=True)
+        with open(os.path.join(VERIF, 'evidence', tier, '%s.json' % prop), 'w') as f:
+            json.dump(ev, f, indent=1, sort_keys=True)
     if unlisted:
         return 1
     if inconclusive:
